@@ -160,6 +160,8 @@ def run_job(job):
     except Exception as e:
         res.status = "inconclusive"
         res.reason = "harness error %s: %s\n%s" % (type(e).__name__, e, traceback.format_exc()[-1500:])
+    if res.failures and res.status == "inconclusive":
+        res.status = "fail"        # a counterexample was already found before the harness gave up
     res.stats["wall_s"] = time.time() - t0
     return res
 
